@@ -382,10 +382,16 @@ func c12Edges(x *c12ctx, jr *rand.Rand, idx int) {
 		name string
 		f    func() *gabi.ProofD
 	}{
-		{"honest reference (m >= 1)", func() *gabi.ProofD { return refRangeProof(x, cred, []int{1}, 2, mm, 1, 1, bi(1), 128, ds, ctx, nonce, 2) }},
+		{"honest reference (m >= 1)", func() *gabi.ProofD {
+			return refRangeProof(x, cred, []int{1}, 2, mm, 1, 1, bi(1), 128, ds, ctx, nonce, 2)
+		}},
 		{"l_d 0", func() *gabi.ProofD { return refRangeProof(x, cred, []int{1}, 2, mm, 1, 1, bi(1), 0, ds, ctx, nonce, 2) }},
-		{"l_d Lm", func() *gabi.ProofD { return refRangeProof(x, cred, []int{1}, 2, mm, 1, 1, bi(1), pk.Params.Lm, ds, ctx, nonce, 2) }},
-		{"l_d Lm+1", func() *gabi.ProofD { return refRangeProof(x, cred, []int{1}, 2, mm, 1, 1, bi(1), pk.Params.Lm+1, ds, ctx, nonce, 2) }},
+		{"l_d Lm", func() *gabi.ProofD {
+			return refRangeProof(x, cred, []int{1}, 2, mm, 1, 1, bi(1), pk.Params.Lm, ds, ctx, nonce, 2)
+		}},
+		{"l_d Lm+1", func() *gabi.ProofD {
+			return refRangeProof(x, cred, []int{1}, 2, mm, 1, 1, bi(1), pk.Params.Lm+1, ds, ctx, nonce, 2)
+		}},
 		{"sign 0: k = sum of squares, reported as m >= k", func() *gabi.ProofD {
 			k := pow2(200)
 			return refRangeProof(x, cred, []int{1}, 2, mm, 0, 1, k, 128, []*big.Int{pow2(100), bi(0), bi(0), bi(0)}, ctx, nonce, 2)
@@ -490,7 +496,9 @@ func c12Transplants(x *c12ctx, jr *rand.Rand, idx int) {
 		mv(fmt.Sprintf("range proofs copied 2 -> %d", to), func(d *gabi.ProofD) { d.RangeProofs[to] = []*rangeproof.Proof{cloneRange(d.RangeProofs[2][0])} })
 	}
 	mv("second statement dropped", func(d *gabi.ProofD) { d.RangeProofs[2] = d.RangeProofs[2][:1] })
-	mv("statements swapped", func(d *gabi.ProofD) { d.RangeProofs[2][0], d.RangeProofs[2][1] = d.RangeProofs[2][1], d.RangeProofs[2][0] })
+	mv("statements swapped", func(d *gabi.ProofD) {
+		d.RangeProofs[2][0], d.RangeProofs[2][1] = d.RangeProofs[2][1], d.RangeProofs[2][0]
+	})
 	mv("statement duplicated", func(d *gabi.ProofD) { d.RangeProofs[2] = append(d.RangeProofs[2], cloneRange(d.RangeProofs[2][0])) })
 	// the same range proof inside a proof of another credential (whose attribute does not satisfy it)
 	op, err := other.C.CreateDisclosureProof([]int{1}, nil, false, ctx, nonce)
@@ -549,7 +557,9 @@ func c12Transplants(x *c12ctx, jr *rand.Rand, idx int) {
 	alt("l_d 0", func(p *rangeproof.Proof) { p.Ld = 0 })
 	alt("l_d raised (not hashed: may stay valid)", func(p *rangeproof.Proof) { p.Ld = 200 })
 	alt("l_d above Lm", func(p *rangeproof.Proof) { p.Ld = 257 })
-	alt("Cs cut to 3 (a stays)", func(p *rangeproof.Proof) { p.Cs, p.DResponses, p.VResponses = p.Cs[:3], p.DResponses[:3], p.VResponses[:3] })
+	alt("Cs cut to 3 (a stays)", func(p *rangeproof.Proof) {
+		p.Cs, p.DResponses, p.VResponses = p.Cs[:3], p.DResponses[:3], p.VResponses[:3]
+	})
 	if idx%8 == 0 {
 		r.Sample(map[string]any{"transplant_job": idx, "m": m})
 	}
